@@ -147,7 +147,7 @@ def check_sign(case):
         had = hasattr(lib, "secrets")
         lib.secrets = stub
         try:
-            outs = [attempt(lib.sign, kb, msg), attempt(lib.sign, kb, msg, None)]
+            outs = [attempt(lib.sign, kb, msg), attempt(lib.sign, kb, msg), attempt(lib.sign, kb, msg, None)]
         finally:
             if had:
                 lib.secrets = saved
@@ -160,7 +160,11 @@ def check_sign(case):
             ok = isinstance(res, (bytes, bytearray)) and ref.verify(pk, msg, bytes(res))
             f.expect(ok, f"sign/aux-omitted/invalid-signature/{par}", f"{res!r}")
         if all(isinstance(r, (bytes, bytearray)) for r in outs):
-            cls.append("aux-omitted/two-distinct" if outs[0] != outs[1] else "aux-omitted/two-equal")
+            # "omitted (random) aux": the randomness is drawn per signature, so repeated calls with the same key and
+            # message give different signatures (whatever the source of the randomness is)
+            fresh = len({bytes(r) for r in outs}) == len(outs)
+            cls.append("aux-omitted/all-distinct" if fresh else "aux-omitted/repeated")
+            f.expect(fresh, f"sign/aux-omitted/not-fresh/{par}", "the same signature was returned by two calls without aux")
         return cls, f
 
     if aux == bytes(32):
